@@ -645,7 +645,7 @@ func main() {
 		fmt.Fprintln(os.Stderr, "environment:", err)
 		os.Exit(2)
 	}
-	defer w.e.Close()
+	defer func() { w.e.Close() }()
 	emitted := 0
 	emit := func(k *Case) {
 		// the store keeps one JSON list of all key ids per provisioner (rewritten on every key
